@@ -303,6 +303,11 @@ class BaseKFACPreconditioner:
             # (the members of its gradient worker group) take part in the
             # broadcast. Other ranks are not members of that group.
             for name, layer in self._layers.values():
+                if layer.a_factor is None or layer.g_factor is None:
+                    # The state was saved before the first factor update
+                    # (e.g., a checkpoint of a freshly constructed
+                    # preconditioner) so there is nothing to invert yet.
+                    continue
                 if get_rank() == self._assignment.inv_worker(name, 'A'):
                     layer.compute_a_inv(damping=self.damping)
                 if (
